@@ -95,7 +95,7 @@ def gen_faulty(rng):
         name = rng.choice(cands)
         line = name + ":" + comment
     else:
-        line = rng.choice(["    #d8 ,", "    #d8 (1", "    #bogus 1", "    #res", "    ld 1 +", "    #d8 1 2"]) + comment
+        line = rng.choice(["    #d8 ,", "    #d8 (1", "    #bogus 1", "    #res 1 2", "    ld 1 +", "    #d8 1 2", "    #align )", "    #addr 1,"]) + comment
     target.insert(idx, (line, "FAULT"))
     inc_pos = rng.randrange(len(root) + 1)
     root.insert(inc_pos, ('#include "inc.asm"', "include"))
@@ -179,6 +179,20 @@ def run(chk):
             chk.violate("excerpt of a line panics", {"op": op, "text": text, "line": line}, "excerpt", ia)
     chk.sample({"op": ops[0], "impl": impl[0], "model": model[0]})
     chk.traces += len(ops)
+
+    # ---------------- known findings of this property
+    for k in fw.known_findings("C13"):
+        if k["status"] != "open":
+            continue
+        a = fw.run_oracle([fw.asm_op([("main.asm", k["replay"]["program"])])], "c13kf")[0]
+        errs = [m for m in a.get("messages", []) if m["kind"] == "error"]
+        line = None
+        if errs and errs[0].get("span"):
+            line = k["replay"]["program"].encode()[:errs[0]["span"]["start"]].count(b"\n") + 1
+        if line == k["replay"]["observed_line"]:
+            chk.known(k["id"], k["observed"])
+        else:
+            chk.notes.append("known finding %s no longer reproduces (first error on line %s)" % (k["id"], line))
 
     # ---------------- single-fault programs
     progs = [gen_faulty(rng) for _ in range(20000 if thorough else 2500)]
